@@ -3,7 +3,7 @@
    nat stays Peano, N/positive stay the library inductives. No Extract Constant. *)
 Require Extraction.
 Require Import ExtrOcamlBasic.
-From BB Require Import BN Brute Diagram Filter Checks Strict PetriNet Control Candidates Blocks ASeeds Signed Names ASeedsFacts BlockMath BlockComplete LogChecks SkipRule SCC PyLib PySrc.
+From BB Require Import BN Brute Diagram Filter Checks Strict PetriNet Control Candidates Blocks ASeeds Signed Names ASeedsFacts BlockMath BlockComplete LogChecks SkipRule SCC PyLib PySrc PySrcKey PySrcPlace.
 Extraction Language OCaml.
 Extraction "bbmodel_core.ml"
   net_of_tables percolate_b max_traps_b min_traps_b is_trap_b sources_b attractors_b
